@@ -3,6 +3,7 @@ open BinNums
 open Datatypes
 open Layout
 open List
+open Nat
 
 type step =
 | SElem of coq_Z
